@@ -154,6 +154,16 @@ def chk_large(case, acc, seed):
             g2 = lf.dft2(f, a, shape=(m, n), unitary=unitary)
             if rm.maxerr(g2, ref) > tol:
                 acc.violation('dft2:value:full-period:large:explicit-shape', dict(case, unitary=unitary), f'{rm.maxerr(g2, ref):.3e}')
+    # sampling intervals a few parts per million / per thousand off the full period are their own transforms (larger output too)
+    for rel in (5e-6, -5e-6, 1e-3, -2e-9):
+        a2 = ((1 + rel) / m, (1 - rel) / n)
+        for shp in ((m, n), (m + 3, n + 5)):
+            got = lf.dft2(f, a2, shape=shp)
+            ref2 = rm.dft2(f, a2, shape=shp)
+            if rm.maxerr(got, ref2) > 1e-9 * (1 + np.sum(np.abs(f))):
+                acc.violation('dft2:value:near-full-period:large', dict(case, rel=rel, shape=shp),
+                              f'alpha = (1{rel:+g})/n on a {m}x{n} input differs from the defining sum by {rm.maxerr(got, ref2):.3e}')
+                break
     g3 = lf.dft2(f, alpha, shift=(0.5, -1), offset=(1, 0))
     if rm.maxerr(g3, rm.dft2(f, alpha, shift=(0.5, -1), offset=(1, 0))) > 1e-9 * (1 + np.sum(np.abs(f))):
         acc.violation('dft2:value:large:shift+offset', case, 'large shifted/offset transform differs from the defining sum')
